@@ -256,6 +256,7 @@ fn golden(rep: &Report) {
 pub fn run(rep: &Report) {
     let seed = rep.seed;
     rep.set_rule("E-GRID vs REF: every point of the stated products (lengths x read partitions x key sets; every composition of L<=8 into chunk sizes; counter sweep; golden files) is executed once on the real code and compared byte for byte with the executable specification; distinct non-trivial = distinct (mode, direction, keys, length, partition/chunking) points with at least one chunk record compared");
+    rep.rule_add("CLI password-file conformance in both directions x {fresh, pre-existing longer output}.");
     rep.assume("REF (OpenSSL-based executable specification written from the RFCs, the Noise spec and docs/file-format.txt) is the meaning of 'the documented format'; it is self-tested against RFC vectors and the published cacophony vector at start");
     rep.assume("key/plaintext values from seed-derived alphabets; 'earlier 1.x releases' are represented only by the repository's two test artefacts");
     let ids = idents(seed);
